@@ -7,7 +7,7 @@ import common
 import e2
 
 
-def probe(tier):
+def probe(tier, prop="C09"):
     model = catalogue.generate(common.BUILD)
     counters = {"constant_probes": 0, "constant_probes_ok": 0}
     violations = []
@@ -22,7 +22,7 @@ def probe(tier):
                     owners[len(lines)] = (t["key"], u)
         lines.append("const _: () = assert!(matches!(quantities::ONE, quantities::One::One));")
         owners[len(lines)] = ("amt.AmountT", {"const": "ONE", "variant": "One"})
-        d = e2.gen_dir("c09-consts-" + backend)
+        d = e2.gen_dir("%s-consts-%s" % (prop.lower(), backend))
         src = os.path.join(d, "consts.rs")
         with open(src, "w", encoding="utf-8") as f:
             f.write("\n".join(lines) + "\n")
@@ -38,7 +38,7 @@ def probe(tier):
             counters["constant_probes"] += 1
             if ln in bad:
                 violations.append({
-                    "property": "C09", "key": "C09/unit-constant/%s.%s@%s" % (key, u["const"], backend), "count": 1, "engine": "E2",
+                    "property": prop, "key": "%s/unit-constant/%s.%s@%s" % (prop, key, u["const"], backend), "count": 1, "engine": "E2",
                     "backend": backend, "tier": tier, "program": "#![allow(unused)]\n" + lines[ln - 1], "expect": "accept",
                     "example": {"case": {"type": key, "constant": u["const"], "variant": u["variant"]},
                                 "observed": "%s: %s" % (bad[ln]["code"], bad[ln]["message"][:200]),
